@@ -62,6 +62,11 @@ pub struct Sc {
     /// the tests must not change meaning with the follow mode)
     #[serde(default)]
     pub follow: Option<String>,
+    /// neutral options (see FindScenario::gen_extras)
+    #[serde(default)]
+    pub extras_pre: Vec<String>,
+    #[serde(default)]
+    pub extras_global: Vec<String>,
 }
 
 /// Set `which` ('a' or 'm') of `file` (None = the reference file) to the real
@@ -243,7 +248,11 @@ impl Property for C15 {
         } else {
             None
         };
+        let mut ex = FindScenario::new(TreeSpec::default(), vec![]);
+        ex.gen_extras(rng, true);
         Sc {
+            extras_pre: ex.extras_pre,
+            extras_global: ex.extras_global,
             files,
             ref_times,
             test,
@@ -488,6 +497,8 @@ impl Property for C15 {
         }
         argv.push("-print0".into());
         let mut find = FindScenario::new(TreeSpec::default(), argv.clone());
+        find.extras_pre = sc.extras_pre.clone();
+        find.extras_global = sc.extras_global.clone();
         find.now_ns = Some(now as i64);
         let obs = run_find_prebuilt(&find, ctx, root);
         rep.executions += 1;
